@@ -124,6 +124,8 @@ type Solver struct {
 	g      *Gen
 	axioms []*compiledAxiom
 	tmpdir string
+	usedMu sync.Mutex
+	used   map[string]bool // names of the axiom schemas that were handed to a solver in this run
 }
 
 func NewSolver(g *Gen) (*Solver, error) {
@@ -200,6 +202,12 @@ func (s *Solver) Script(ob *Obligation) string {
 			if rel {
 				include[i] = true
 				changed = true
+				s.usedMu.Lock()
+				if s.used == nil {
+					s.used = map[string]bool{}
+				}
+				s.used[ax.decl.Name] = true
+				s.usedMu.Unlock()
 				for sy := range ax.symbols {
 					if !syms[sy] {
 						syms[sy] = true
